@@ -18,6 +18,7 @@ THEOREMS = [
     # unregister of both front-ends inside the model (and the unserialised legacy unregister of the unchanged tree)
     'Ndn.C17.unregister_takes_the_lock', 'Ndn.C17.nothing_outside_the_lock', 'Ndn.C17.unchanged_legacy_unregister_overlaps',
     'Ndn.C17.routes_conserved', 'Ndn.C17.routes_once_per_connection', 'Ndn.C17.routes_registered_after_replies',
+    'Ndn.C17.connection_loss_ends_startup', 'Ndn.C17.routes_once_after_any_end',
     'Ndn.C17.response_roundtrip', 'Ndn.C17.response_keys',
     'Ndn.C17.unchanged_register_raises_without_body', 'Ndn.C17.unchanged_unregister_ignores_status',
     'Ndn.C17.unchanged_routes_lost', 'Ndn.C17.gen_fields', 'Ndn.C17.gen_caught',
@@ -49,6 +50,15 @@ TRUSTED = [
     'scheduling are exercised only by the correspondence (virtual-time loop)',
     'C17: the clock enters the model as the advances between consecutive reads (monotone by construction); the '
     'hypothesis of timestamps_strict is that the millisecond clock advances across each 1 ms sleep of the guard loop',
+    'C17: the end of a connection is the event `down` of the model (Face.run() returning or raising, start-up registration '
+    'finished or cut after k of n commands): the command in flight returns False, the start-up task is gone.  Two '
+    'situations are marked `unmodelled` there: calls waiting for the command lock when the connection is lost, and a '
+    'connection established while the start-up task of the previous one is still running (Face.run() raised during '
+    'start-up and the application reconnects before the command in flight has run into its lifetime; on /repo that '
+    'makes the old task register its remaining routes on the new connection as well - observed, not in the stream).  '
+    'routes_conserved / routes_once_per_connection hold for every state with no start-up task running (any previous '
+    'history, any kind of end); the route list is an input of `connect` (what route() has collected); the stream rc '
+    '(harness/props/c17_reconnect.py) is oracle-only',
     'C17: the legacy unregister also removes the callback of the prefix from the dispatch table before it queues for '
     'the command lock; that table is C04\'s and is not part of this model.  The unserialised legacy unregister of '
     'the unchanged tree is in the model (Cfg.unregLock = false, theorem unchanged_legacy_unregister_overlaps) but is '
@@ -65,7 +75,12 @@ RULE = ('scenarios on the virtual-time loop with the real NDNApp (v2 with the re
         'naming another prefix or present-but-empty, answers arriving 20 ms - 3 s after the command lifetime, the clock '
         'set back 1-4 ms between two commands (oracle only), routes declared while a connection is up and between two '
         'connections; reconnect stream: ONE application object through 2-3 connections, each on a FRESH event loop (what '
-        'run_forever() does), 2-7 concurrent calls on every connection so that the command lock is contended each time, '
+        'run_forever() does; stream rc: ONE application object through 2-3 connections on one loop, each ending by '
+        'app.shutdown() / Face.run() returning / Face.run() raising ConnectionAbortedError, OSError or TimeoutError out of '
+        'main_loop (caught, main_loop() called again) after start-up registration / the face going down when k of the n '
+        'start-up commands have been sent (k = 0..n-1), routes declared before the first connection, while start-up '
+        'registration is in progress, while a connection is idle and between connections, 0 / 5 / 1500 ms between '
+        'connections - legacy: orderly ends only until finding C17-7 is repaired), 2-7 concurrent calls on every connection so that the command lock is contended each time, '
         '0-50 ms between connections, connection attempts whose face.open() fails and are retried; plus ControlResponse '
         'values with random status/text/body fields for parse_response; plus a byte-level stream: verb, local/non-local '
         'face, prefix (text prefixes and random typed components, lengths around 253), 0-15 further ControlParameters '
@@ -287,8 +302,9 @@ def _by_case(rng, tier):
 
 
 def cases(rng, tier):
-    from props import c17_openwindow as OW
+    from props import c17_openwindow as OW, c17_reconnect as RC
     yield from OW.cases(rng, tier)
+    yield from RC.cases(rng, tier)
     n_sm, n_pr = (260, 200) if tier == 'quick' else (7000, 4000)
     n_by = 160 if tier == 'quick' else 4000
     # a few fixed shapes first: the replies NFD really sends
@@ -322,6 +338,10 @@ def cases(rng, tier):
 
 def shrink(case):
     if case['mode'] == 'ow':
+        return
+    if case['mode'] == 'rc':
+        from props import c17_reconnect as RC
+        yield from RC.shrink(case)
         return
     if case['mode'] == 'by':
         for k in sorted(case['kw']):
@@ -737,6 +757,9 @@ def run_impl(case):
     if case['mode'] == 'ow':
         from props import c17_openwindow as OW
         return OW.run(case)
+    if case['mode'] == 'rc':
+        from props import c17_reconnect as RC
+        return RC.run(case)
     if case['mode'] == 'pr':
         return _run_pr(case)
     if case['mode'] == 'by':
@@ -1174,7 +1197,7 @@ def _by_line(case, impl):
 
 
 def model_line(case, impl):
-    if case['mode'] == 'ow':
+    if case['mode'] in ('ow', 'rc'):
         return None
     if case['mode'] == 'by':
         return _by_line(case, impl)
@@ -1413,6 +1436,9 @@ def oracle(case, impl):
     if case['mode'] == 'ow':
         from props import c17_openwindow as OW
         return OW.oracle(case, impl)
+    if case['mode'] == 'rc':
+        from props import c17_reconnect as RC
+        return RC.oracle(case, impl)
     """the property statement, evaluated on the implementation's observable behaviour only"""
     if case['mode'] == 'pr':
         if 'encode_error' in impl:
@@ -1487,7 +1513,7 @@ def oracle(case, impl):
 
 
 def nontrivial(case, impl):
-    if case['mode'] == 'ow':
+    if case['mode'] in ('ow', 'rc'):
         return True
     if case['mode'] == 'by':
         return bool(case['kw']) or len(case['prefix']) >= 2
@@ -1500,6 +1526,9 @@ def nontrivial(case, impl):
 def tags(case, impl):
     if case['mode'] == 'ow':
         return ['mode:ow', 'fe:' + case['fe']]
+    if case['mode'] == 'rc':
+        from props import c17_reconnect as RC
+        return RC.tags(case, impl)
     if case['mode'] == 'by':
         t = ['by', 'by-kw:%d' % len(case['kw']), 'by-local:%s' % case['local'], 'by-comps:%d' % min(len(case['prefix']), 5),
              'by-name-' + impl['name'][0], 'by-resp-' + impl['resp_wire'][0],
@@ -1556,6 +1585,9 @@ def finding_key(case, impl, why):
     if case['mode'] == 'ow':
         import re
         return 'ow-' + re.sub(r'[^a-z]+', '-', re.sub(r'connection \d+', 'connection', why).lower())[:70]
+    if case['mode'] == 'rc':
+        import re
+        return ('rc-' + case['fe'] + '-' + re.sub(r'[^a-z]+', '-', re.sub(r'\(.*|connection \d+:?|\d+ times', '', why).lower()).strip('-'))[:80]
     import re
     if case['mode'] == 'by':
         if 'raised' in why and 'response without body' in why:
